@@ -243,7 +243,11 @@ def call_ext(it, name, args, kwargs, node):
 
     rec = [name, list(args), dict(kwargs), it.site(node), None]
     it.ext_calls.append(rec)
-    r = _call_ext(it, name, args, kwargs, node)
+    try:
+        r = _call_ext(it, name, args, kwargs, node)
+    except ShapeMismatch as e:
+        it.shape_errors.append((it.site(node), "%s: %s" % (name, e)))
+        r = it.fresh(None, None, "tensor", node)
     rec[4] = r
     return r
 
@@ -1123,7 +1127,11 @@ def call_bound(it, recv, name, args, kwargs, node):
     from .interp import RaiseEx
 
     if isinstance(recv, VTens):
-        return tensor_method(it, recv, name, args, kwargs, node)
+        try:
+            return tensor_method(it, recv, name, args, kwargs, node)
+        except ShapeMismatch as e:
+            it.shape_errors.append((it.site(node), "%s: %s" % (name, e)))
+            return it.fresh(None, None, recv.kind, node)
     if isinstance(recv, VDict):
         return dict_method(it, recv, name, args, kwargs, node)
     if isinstance(recv, VList):
